@@ -26,6 +26,15 @@ debug-assertions = false
 codegen-units = 16
 incremental = false
 
+[profile.mid]
+inherits = "release"
+opt-level = 2
+debug = false
+overflow-checks = true
+debug-assertions = false
+codegen-units = 16
+incremental = false
+
 # the engine itself and third-party crates are always optimised; only the code generated from the
 # macro (the shard crates) follows the profile under test
 [profile.checked.package.regmc]
